@@ -175,6 +175,23 @@ pub fn run(ctx: &Ctx) -> Report {
         let _ = BV::Int(0);
     }
 
+    // (b1) well-formed documents with long byte strings (a torrent with 60 000 pieces has a 1.2 MB one)
+    if ctx.want("extremes") && ctx.shard == 1 % ctx.nshards {
+        for len in [65_536usize, 1 << 20, (1 << 20) + 1, 1_200_000, 3_000_000] {
+            let mut doc = format!("d6:pieces{}:", len).into_bytes();
+            doc.extend(std::iter::repeat(0xABu8).take(len));
+            doc.push(b'e');
+            for d in [doc.clone(), doc[9..doc.len() - 1].to_vec()] {
+                rep.evaluations += 1;
+                rep.count("long_byte_strings", 1);
+                match catch(|| BDecoder::from_array(&d)) {
+                    Err(p) => rep.violation(&format!("C16:panic:{}", panic_site(&p)), p, json!({"input": format!("a {}-byte string, document of {} bytes", len, d.len())})),
+                    Ok(Err(e)) => rep.violation("C16:rejects-wellformed", format!("well-formed input rejected: {}", e), json!({"input": format!("byte string of {} bytes ({} bytes in all)", len, d.len())})),
+                    Ok(Ok(_)) => (),
+                }
+            }
+        }
+    }
     // (b2) numeric extremes: string lengths and integers around 2^63 / 2^64 and with many digits
     if ctx.want("extremes") && ctx.shard == 0 {
         let two64: u128 = 1u128 << 64;
